@@ -1,5 +1,6 @@
 import FlVerif.Spec.Pipeline
 import FlVerif.Op.Engine
+import FlVerif.Lemmas.CodeEngine
 
 /-! # C01 — Engine output equals the documented inference pipeline
 
@@ -8,6 +9,22 @@ Part 2: the executable model `Op.Engine` (the one the driver runs against `Engin
 
 namespace C01
 open Spec.Pipeline
+
+/-- **Tie A (code → model).**  `Gen.Code.Engine_process` is regenerated from the source of `Engine.process` on every run
+    (`fv/pylean.py`): three loops – `variable.fuzzy.clear()` for every output variable, `block.activate()` for every
+    *enabled* rule block in order (the external `Op.Engine.activateBlock` on the fuzzy outputs accumulated so far),
+    `variable.defuzzify()` for every output variable in order (the external `Py.Eng.defuzzifyVar`: the raw value
+    `Op.Engine.defuzzRaw` of an enabled variable; the cascade after it is `C12.code_defuzzify`).  `fz i` is the fuzzy
+    output of the `i`-th output variable before the call (it does not matter: the first loop clears it).
+    For every engine: the code raises exactly when the model `Op.Engine.processRow` fails; otherwise the fuzzy outputs
+    and the raw values are those of the model, and the per-block rule observations are those the model records for the
+    enabled blocks (`enabledObs`: the model records `[]` for a disabled block, the code does not touch it). -/
+theorem code_process (F : Fn Rat) (e : Op.Engine.EngineD Rat) (fz : Nat → List (Op.Engine.Act Rat)) :
+    match Op.Engine.processRow F e with
+    | none => ∃ err, Gen.Code.Engine_process.run F e fz {} = .error err
+    | some r => ∃ σ, Gen.Code.Engine_process.run F e fz {} = .ok σ ∧ σ.fuzzy = r.fuzzy ∧ σ.raw = r.raw ∧
+        σ.rules = Op.Engine.enabledObs e.blocks r.rules :=
+  Op.Engine.code_process F e fz
 
 section wiring
 variable {S D : Type}
